@@ -182,6 +182,7 @@ type Machine struct {
 	lastIntrRes      Value
 	curFn            *ssa.Function
 	curPos           token.Pos
+	civSeen          []*Civil
 	deferPos         token.Pos
 	nextNid          int
 	lastIntrSt       invStatus
@@ -202,6 +203,7 @@ func NewMachine(L *Loaded, H *Harness, pool *WorkPool) (*Machine, error) {
 	if err != nil {
 		return nil, err
 	}
+	s.OneShot = H.Opts["incr"] == "off"
 	m := &Machine{L: L, H: H, tt: NewTermTable(), solver: s, pool: pool,
 		pglobals: map[*ssa.Global]*Cell{}, pinited: map[*ssa.Package]bool{}, fnNames: map[*ssa.Function]string{},
 		coverModels: map[string]*Finding{}}
@@ -519,6 +521,7 @@ func (m *Machine) resetRun() {
 	m.ghostDepth = 0
 	m.timeNow = nil
 	m.chanWaits = nil
+	m.civSeen = nil
 	m.nextNid = 1
 	m.deferPos = token.NoPos
 	m.pendAux, m.pendAuxSet = 0, false
